@@ -37,7 +37,7 @@ CHECKS = {
         technique="Lean 4 theorems on the runner-level model (unittest protocol, TestResult, layer loop) + differential correspondence on generated test worlds + trace monitors",
         design="§5 C12"),
     "C13": dict(
-        text="Runner-level Lean model (Model/Proto = unittest 3.12.1 protocol, Model/Result = TestResult, Model/Runner = layer loop, resume, children) tied to the code by running the real runner (CLI, real children) on generated test worlds whose hooks and tests write a pid-tagged trace; every process is compared event by event with the model on this property's projection, and the property's clauses are monitored on the real traces/output. Theorems (every test sequence, every outcome kind, every op sequence unittest can produce): between tests and after the run the std streams are the originals and every per-test hook saw them (C13_restored_between_tests), without --buffer they are never replaced (C13_never_replaced), a test without a failure/error shows nothing (C13_quiet_when_ok), whatever becomes visible is shown under the name of the test that wrote it - the buffers are empty when a test starts (C13_attributed_test, C13_attribution over a whole layer run), and a test that records a failure/error has everything it wrote made visible under its name (C13_failing_shown). Projection/monitor: token attribution under --buffer (quiet when ok, shown when failing, never in another test's report) and stream identity seen by layer hooks, incl. tests that rebind or own their std streams and XML reports.",
+        text="Runner-level Lean model (Model/Proto = unittest 3.12.1 protocol, Model/Result = TestResult, Model/Runner = layer loop, resume, children) tied to the code by running the real runner (CLI, real children) on generated test worlds whose hooks and tests write a pid-tagged trace; every process is compared event by event with the model on this property's projection, and the property's clauses are monitored on the real traces/output. Theorems (every test sequence, every outcome kind, every op sequence unittest can produce): between tests and after the run the std streams are the originals and every per-test hook saw them (C13_restored_between_tests), without --buffer they are never replaced (C13_never_replaced), a test without a failure/error shows nothing (C13_quiet_when_ok), whatever becomes visible is shown under the name of the test that wrote it - the buffers are empty when a test starts (C13_attributed_test, C13_attribution over a whole layer run), and a test that records a failure/error has everything it wrote made visible under its name (C13_failing_shown). One level below, Model/Streams is the capture code (_setUpStdStreams, _restoreStdStreams, _takeBufferedOutput, addSkip's re-capture) as a state machine over stream objects, tied to the real TestResult methods by operation histories (runner operations interleaved with test code that writes, closes the stream it finds, puts saved streams back, installs its own): no runner operation ever raises (C13S_never_raises), a restore leaves both streams the originals (C13S_restore_clean, C13S_between_tests for every history in which the test only puts back what it found), the result then holds only open empty capture streams and returned exactly their contents (C13S_drained, C13S_returns_content), without --buffer the runner never touches the streams (C13S_no_buffer); the defects of the two earlier versions of that code are witnessed (C13S_D35*_witness). Projection/monitor: token attribution under --buffer (quiet when ok, shown when failing, never in another test's report) and stream identity seen by layer hooks, incl. tests that rebind or own their std streams and XML reports.",
         note="output after a failing test's last result event is raw inside its window",
         technique="Lean 4 theorems on the runner-level model (unittest protocol, TestResult, layer loop) + differential correspondence on generated test worlds + trace monitors",
         design="§5 C13"),
